@@ -330,4 +330,102 @@ mutual
       | _, _ => none
 end
 
+/-! ### Static typing of the core fragment
+
+  `typeOf t` computes, without looking at any data, the ordered inputs and the event shape that the
+  eager result of `t` has (mirroring `Funsor.__init__`'s input-union typing), or `none` when `t` is
+  outside the *core fragment*: ground expressions built from tensors, numbers, pointwise
+  unary/binary ops, reductions (add/mul/max/min, present or absent variables), substitution of
+  integer numbers, Stack and Lambda.  `Props/C01/Total.lean` proves that on this fragment `peval`
+  always completes (`peval_total_core`). -/
+
+abbrev Ty := List (Name × Nat) × List Nat
+
+def tyUnary (op : Op) (a : Ty) : Option Ty :=
+  if pointwiseUn.contains op.name then some a else none
+
+def tyBinary (op : Op) (a b : Ty) : Option Ty :=
+  let u := if a.1 == b.1 then a.1 else unionInputs a.1 b.1
+  if op.name != "getitem" && pointwiseBin.contains op.name && SubDict a.1 u && SubDict b.1 u then
+    (broadcastShapes a.2 b.2).map fun sh => (u, sh)
+  else none
+
+def tyReduce1 (op : String) (vars : List (Name × Nat)) (a : Ty) : Option Ty :=
+  let keep := a.1.filter (fun p => !(vars.map (·.1)).contains p.1)
+  if reduceOps.contains op && SubDict a.1 (vars ++ keep) && vars.all (fun p => decide (0 < p.2)) then
+    some (keep, a.2)
+  else none
+
+def tyReduce (op : String) (vars : List (Name × Nat)) (a : Ty) : Option Ty :=
+  let present := vars.filter (fun p => (a.1.map (·.1)).contains p.1)
+  let absent := vars.filter (fun p => !(a.1.map (·.1)).contains p.1)
+  if absent.isEmpty then tyReduce1 op present a
+  else if vars.all (fun p => decide (0 < p.2)) then tyReduce1 op present a
+  else none
+
+def tySubsNum (σ : List (Name × Nat)) (a : Ty) : Option Ty :=
+  let hit := σ.filterMap fun p => (a.1.lookup p.1).map fun s => (p.1, p.2, s)
+  let keep := a.1.filter (fun p => !(hit.map (·.1)).contains p.1)
+  let hitSized := hit.map fun h => (h.1, h.2.2)
+  if SubDict a.1 (hitSized ++ keep) && validIdx (hit.map (·.2.1)) (hit.map (·.2.2)) then some (keep, a.2)
+  else none
+
+def tyUnionAll (parts : List Ty) : List (Name × Nat) := parts.foldl (fun acc p => odUpdate acc p.1) []
+
+def tyStack (name : Name) (parts : List Ty) : Option Ty :=
+  match parts with
+  | [] => none
+  | p0 :: _ =>
+    let u := tyUnionAll parts
+    if parts.all (fun p => SubDict p.1 u && p.2 == p0.2 && !(p.1.map (·.1)).contains name) then
+      some ((name, parts.length) :: u, p0.2)
+    else none
+
+def tyLambda (name : Name) (size : Nat) (a : Ty) : Option Ty :=
+  if size = 0 then none else
+  if (a.1.map (·.1)).contains name then
+    let keep := odErase a.1 name
+    if SubDict a.1 (keep ++ [(name, size)]) then some (keep, size :: a.2) else none
+  else some (a.1, size :: a.2)
+
+mutual
+  def typeOf : Term → Option Ty
+    | Term.num _ _ => some ([], [])
+    | Term.tensor inputs dom _ => some (inputs, dom.shape)
+    | Term.unary op a =>
+      match typeOf a with
+      | some ta => tyUnary op ta
+      | none => none
+    | Term.binary op l r =>
+      match typeOf l, typeOf r with
+      | some a, some b => tyBinary op a b
+      | _, _ => none
+    | Term.reduce op a vars =>
+      match typeOf a, varsSizes vars with
+      | some ta, some vs => tyReduce op vs ta
+      | _, _ => none
+    | Term.subs a σ =>
+      match typeOf a, subsNums σ with
+      | some ta, some σn => tySubsNum σn ta
+      | _, _ => none
+    | Term.stack n parts =>
+      match typeOfList parts with
+      | some ts => tyStack n ts
+      | none => none
+    | Term.lambda n size body =>
+      match typeOf body with
+      | some tb => tyLambda n size tb
+      | none => none
+    | _ => none
+  def typeOfList : List Term → Option (List Ty)
+    | [] => some []
+    | t :: ts =>
+      match typeOf t, typeOfList ts with
+      | some r, some rs => some (r :: rs)
+      | _, _ => none
+end
+
+/-- The core fragment (the first argument is reserved for a typing context; unused). -/
+def isCore (_ : List (Name × Nat)) (t : Term) : Bool := (typeOf t).isSome
+
 end FV.C01
